@@ -17,7 +17,7 @@ use std::collections::{BTreeMap, BTreeSet, HashMap};
 
 pub struct C20;
 
-pub const CONVS: [&str; 7] = ["raw->gds", "raw->proto", "raw->lef", "lef->raw->lef", "proto->raw->proto", "gds->raw", "raw->gds->raw"];
+pub const CONVS: [&str; 8] = ["raw->gds", "raw->proto", "raw->lef", "lef->raw->lef", "proto->raw->proto", "gds->raw", "raw->gds->raw", "tetris->raw"];
 
 #[derive(Clone, Debug)]
 pub struct Case {
@@ -273,6 +273,26 @@ pub fn convert_once(case: &Case) -> Result<(Vec<(String, Vec<i16>)>, String), St
             let lib = Library::from_gds(&g, None).map_err(e)?;
             Ok((vec![], dump_raw(&lib)))
         }
+        7 => {
+            // gridded layout -> raw: a two-metal cell with a cut, an assignment and an instance of a one-metal child,
+            // on one of the stacks of the C08 family (chosen by the case), converted by the real RawExporter
+            use crate::props::c08::{run_convert, CaseD};
+            use crate::refmodel::tiling::{stack_family, CellIn, ChildD, CrossD, InstIn};
+            let fam = stack_family();
+            let si = [1usize, 9, 10][(case.port_layers + case.perm) % 3];
+            let cell = CellIn {
+                metals: 2,
+                size: (6, 6),
+                cuts: if case.two_shapes { vec![CrossD(0, 0, 1, 1), CrossD(0, 2, 1, 1)] } else { vec![CrossD(0, 0, 1, 1)] },
+                assigns: vec![("n".to_string(), CrossD(1, 0, 0, 1))],
+                insts: if case.two_ports { vec![InstIn { child: 0, loc: (4, 0), rh: false, rv: false }] } else { vec![] },
+            };
+            let cd = CaseD { stack: si, cell, children: vec![ChildD { metals: 1, size: (2, 6) }] };
+            match run_convert(&fam[si], &cd)? {
+                Ok(cells) => Ok((vec![], format!("{cells:?}"))),
+                Err(e) => Err(format!("tetris->raw conversion failed on a well-formed cell: {e}")),
+            }
+        }
         _ => {
             // raw -> gds -> raw
             let lib0 = build_raw(case);
@@ -313,9 +333,9 @@ impl CaseDriver for C20 {
     }
     fn describe(&self, _tier: Tier) -> Describe {
         Describe {
-            rule: "inputs: raw libraries with 1-2 abstract cells whose 1-2 ports carry shapes on 1-3 layers and whose blockages sit on 0/2/3 layers (unordered maps with 1-3 keys, every insertion order), 1-2 shapes per layer, plus a layout cell with elements on 3 layers x 2 purposes, an annotation and a reflected+rotated instance; LEF / protobuf / GDSII inputs derived from them in a fixed order. Conversions: raw->GDSII (bytes, dates pinned), raw->protobuf (prost bytes), raw->LEF (serde_json), LEF->raw->LEF, protobuf->raw->protobuf, GDSII->raw, raw->GDSII->raw (raw results as an order-preserving dump). Configurations: every input is rebuilt / re-imported with fresh HashMaps until each of the k! iteration orders of every map the exporter walks has been observed on the very map objects (minimum 8, cap 4096 rebuilds; coverage measured and reported as tags), plus fresh OS processes; conversions that expose no map (GDSII->raw) are repeated 32 times - unordered containers internal to a converter cannot be enumerated, only exercised. Two of the three layers may share a layer number. A state is (input, conversion); non-trivial = some map has >= 2 keys.".into(),
+            rule: "inputs: raw libraries with 1-2 abstract cells whose 1-2 ports carry shapes on 1-3 layers and whose blockages sit on 0/2/3 layers (unordered maps with 1-3 keys, every insertion order), 1-2 shapes per layer, plus a layout cell with elements on 3 layers x 2 purposes, an annotation and a reflected+rotated instance; LEF / protobuf / GDSII inputs derived from them in a fixed order. Conversions: raw->GDSII (bytes, dates pinned), raw->protobuf (prost bytes), raw->LEF (serde_json), LEF->raw->LEF, protobuf->raw->protobuf, GDSII->raw, raw->GDSII->raw, gridded layout->raw (raw results as an order-preserving dump). Configurations: every input is rebuilt / re-imported with fresh HashMaps until each of the k! iteration orders of every map the exporter walks has been observed on the very map objects (minimum 8, cap 4096 rebuilds; coverage measured and reported as tags), plus fresh OS processes; conversions that expose no map (GDSII->raw) are repeated 32 times - unordered containers internal to a converter cannot be enumerated, only exercised. Two of the three layers may share a layer number. A state is (input, conversion); non-trivial = some map has >= 2 keys.".into(),
             assumptions: vec!["an unordered map in the raw data model itself is rendered sorted (a map has no order); every ordered container must keep its order".into()],
-            excluded: vec!["gridded layout -> raw (tetris) conversion determinism is checked as part of C08's driver inputs once per case, not under map-order enumeration: it walks no unordered map".into()],
+            excluded: vec!["gridded layout -> raw is exercised on three stacks x a few cells only (the C08 alphabet is not re-enumerated here)".into()],
             technique: "exhaustive enumeration of hash-map iteration orders (observed on the real map objects) x inputs x conversions; outputs compared byte-for-byte within and across processes".into(),
         }
     }
